@@ -48,6 +48,7 @@ Section Abs.
     | MNot sid => negb (NM.mem i (as_st S sid))
     | MMaybe _ => true
     | MChange k _ _ => NM.mem i (as_cs S k)
+    | MBitOp bop a b => bitop_has bop a b i
     end.
 
   Fixpoint a_others (av : aview) (hs : pvec entity) (sid : N) (mutably : bool) (l : list href) (S : astate)
@@ -71,7 +72,7 @@ Section Abs.
     | MRead sid => let '(S', t) := a_jact S sid (JRead i) in (S', JTok t)
     | MWrite sid touch d => let '(S', t) := a_jact S sid (JAccess i touch d) in (S', JTok t)
     | MEntities => (S, JEnt (i, av_cur_gen av i))
-    | MBits _ | MNot _ => (S, JUnit)
+    | MBits _ | MNot _ | MBitOp _ _ _ => (S, JUnit)
     | MMaybe m' =>
         if a_has S eids m' i then let '(S', x) := a_mget av hs excl eids m' i S in (S', JSome x) else (S, JNone)
     | MDrain sid => let '(S', t) := a_jact S sid (JRemove i) in (S', JTok t)
